@@ -435,7 +435,7 @@ def check(pid, tier, seed):
     if not proof["ok"]:
         cov.pop("discharged", None)
     if cfg["level"] == "other":
-        cov["explanation"] = cfg.get("explanation", "")
+        cov["explanation"] = cfg.get("explanation") or cfg.get("text") or "see DESIGN.md section 0.2"
     ev = dict(property_id=pid, tier=tier, seed=seed, level=cfg["level"], coverage=cov,
               assumptions=cfg.get("assumptions", []), wall_s=round(time.time() - t0, 2), violations=len(seen))
     write_evidence(pid, ev)
